@@ -4,6 +4,7 @@
 # on /repo's current working tree (go/ssa is rebuilt from source on every run).
 set -u
 cd "$(dirname "$0")" || exit 3
+VERIF_DIR="$(pwd)"; export VERIF_DIR
 export GOFLAGS=-mod=mod GOPROXY=off GOSUMDB=off GOTOOLCHAIN=local CARGO_NET_OFFLINE=true PIP_NO_INDEX=1
 if [ ! -x bin/symgo ] || [ -n "$(find engine -name '*.go' -newer bin/symgo 2>/dev/null | head -1)" ]; then
   mkdir -p bin
